@@ -1048,23 +1048,68 @@ def explain(
     always_on: Sequence[str] = (),
 ) -> Optional[List[str]]:
     """outcomes: {backend: ('ok', cols, rows) | ('raise', type, msg)}, backends in pandas|sqlite|polars.
-    Returns a 1-minimal sub-list of `universe` (default: all divergences) which, switched on together
-    with `always_on`, makes the model reproduce every given outcome -- or None if even the full universe
-    does not."""
-    names = sorted(universe if universe is not None else DIVERGENCES.keys())
-    base = set(always_on)
 
-    def ok(D):
-        try:
-            return all(outcome_matches(spec, data, be, set(D) | base, act, ignore, extra) for be, act in outcomes.items())
-        except ModelRaise:
-            return False
+    EVERY divergence is a switch: none is assumed to be present in the library.  The result is a minimal
+    set of switches S (subset of universe + always_on) such that the model with exactly S switched on
+    reproduces every given outcome; the members of S that belong to `universe` are returned (the
+    `always_on` names are the divergences both compared back ends share: searched like the others, but
+    they cannot explain a difference between the two, so they are not reported).  None if no set of
+    switches reproduces the outcomes.
 
-    D = list(names)
-    if not ok(D):
-        return None
-    for n in list(names):
-        trial = [x for x in D if x != n]
-        if ok(trial):
-            D = trial
-    return D
+    Search: (1) all switches on, then drop one at a time while the outcomes are still reproduced (fast
+    path: the library shows all known divergences); (2) otherwise -- e.g. a modelled defect has been
+    FIXED in the library -- the switches that can change the model's outcome for this case are
+    determined and their subsets are tried by increasing size."""
+    reportable = sorted(universe if universe is not None else DIVERGENCES.keys())
+    names = sorted(set(reportable) | set(always_on))
+    cache: Dict[frozenset, bool] = {}
+
+    def ok(D) -> bool:
+        key = frozenset(D)
+        if key not in cache:
+            try:
+                cache[key] = all(outcome_matches(spec, data, be, set(key), act, ignore, extra) for be, act in outcomes.items())
+            except ModelRaise:
+                cache[key] = False
+        return cache[key]
+
+    def report(S):
+        return [x for x in sorted(S) if x in set(reportable)]
+
+    # (1) fast path
+    if ok(names):
+        D = list(names)
+        for n in list(names):
+            trial = [x for x in D if x != n]
+            if ok(trial):
+                D = trial
+        return report(D)
+
+    # (2) which switches matter for this case at all?
+    def sig(backend, D):
+        o = model_outcome(spec, data, backend, set(D))
+        pre = model_outcome(spec, data, backend, set(D), upto=max(0, len(spec["steps"]) - 1))
+        return repr((o, pre))
+
+    relevant = []
+    for f in names:
+        devs = [b for b in outcomes if b in DIVERGENCES[f][0]]
+        hit = False
+        for b in devs:
+            try:
+                if sig(b, [f]) != sig(b, []) or sig(b, names) != sig(b, [x for x in names if x != f]):
+                    hit = True
+                    break
+            except ModelRaise:
+                hit = True
+                break
+        if hit:
+            relevant.append(f)
+    import itertools
+
+    max_size = len(relevant) if len(relevant) <= 12 else 5
+    for size in range(0, max_size + 1):
+        for S in itertools.combinations(relevant, size):
+            if ok(S):
+                return report(S)
+    return None
